@@ -237,10 +237,15 @@ def ensure_makefile():
             raise RuntimeError("coq_makefile failed: " + err)
 
 
+FILE_LIMIT = int(os.environ.get("VERIF_COQC_LIMIT", "900"))
+
+
 def make(targets, timeout=1800):
     """Full .vo build of the given targets (relative to coq/). Returns (ok, log)."""
     ensure_makefile()
-    rc, out, err, dt = sh(["make", "-j%d" % NPROC, "-k"] + targets, timeout, cwd=COQ)
+    # every coqc runs under its own time limit: on the unchanged tree the slowest file takes 2-3 minutes; a proof script that
+    # runs away on a mutated table (field / vm_compute) is a failed obligation after FILE_LIMIT seconds, not a hung check
+    rc, out, err, dt = sh(["make", "-j%d" % NPROC, "-k", "COQC=timeout %d coqc" % FILE_LIMIT] + targets, timeout, cwd=COQ)
     return rc == 0, out + err
 
 
